@@ -212,7 +212,8 @@ static void factor_and_check(int which)
     (void)which;
     verdict_pass();
 }
-void prop_C02(void) { factor_and_check(2); }
+void forced_pivot_enum(void);
+void prop_C02(void) { if (!strcmp(P_str("mode", "case"), "forced_enum")) forced_pivot_enum(); factor_and_check(2); }
 void prop_C09(void) { factor_and_check(9); }
 void prop_C03(void) { factor_and_check(3); }
 void prop_C04(void) { g_mon_strict_info = 0; factor_and_check(4); }
@@ -276,5 +277,75 @@ void prop_C06(void)
     if (x.have_opt) fx_finish_gstrf(&x);
     g_track = 1; Destroy_SuperNode_SCP(&x.L); Destroy_CompCol_NCP(&x.U); g_track = 0;
     feat("in_supernode", x.D->maxsup);
+    verdict_pass();
+}
+
+/* ------------------------------------------------------------------ C02/C05: bounded-exhaustive forced pivot orders
+ * every 0/1 pattern code in [lo,hi) of order n that has a transversal  x  every row order, forced with usepr=YES, u=0 */
+static int next_perm(int *p, int n)
+{
+    int i = n - 2; while (i >= 0 && p[i] > p[i + 1]) --i; if (i < 0) return 0;
+    int j = n - 1; while (p[j] < p[i]) --j; int t = p[i]; p[i] = p[j]; p[j] = t;
+    for (int a = i + 1, b = n - 1; a < b; ++a, --b) { t = p[a]; p[a] = p[b]; p[b] = t; }
+    return 1;
+}
+void forced_pivot_enum(void)
+{
+    const slu_vt *vt = vt_of(P_str("prec", "d")[0]); int n = (int)P_int("n", 3); long lo = P_int("lo", 0), hi = P_int("hi", 1L << (n * n)); int P = (int)P_int("P", 1);
+    long runs = 0, honoured = 0, fallback = 0, ambiguous = 0, patterns = 0, singular = 0;
+    g_exit_policy = EXITPOL_VIOLATION;
+    int_t colptr[8], rowind[32]; void *vals = hx_malloc(vt->esize * 32);
+    for (long code = lo; code < hi; ++code) {
+        long nz = 0; for (int j = 0; j < n; ++j) { colptr[j] = (int_t)nz; for (int i = 0; i < n; ++i) if ((code >> (j * n + i)) & 1) { rowind[nz] = i;
+                    uint64_t h = (uint64_t)(code * 131 + i * 17 + j * 7 + 1) * 0x9E3779B97F4A7C15ull; double v = 0.5 + (double)((h >> 20) % 3001) / 2000.0; if ((h >> 11) & 1) v = -v;
+                    el_set(vt, vals, nz, v, vt->is_complex ? 0.25 * v : 0); nz++; } } colptr[n] = (int_t)nz;
+        if (structural_rank(n, colptr, rowind) < n) continue;
+        patterns++;
+        int perm[8]; for (int i = 0; i < n; ++i) perm[i] = i;
+        /* the column order the library will use for this pattern (natural order composed with its etree postorder) */
+        int_t pcfin[8];
+        { NCformat st0 = { (int_t)nz, vals, rowind, colptr }; SuperMatrix A0 = { SLU_NC, vt->dtype, SLU_GE, n, n, &st0 }, AC0; superlumt_options_t o0; memset(&o0, 0, sizeof o0);
+          for (int i = 0; i < n; ++i) pcfin[i] = i; int_t et[8], cc[8], ps[8]; o0.refact = NO; o0.etree = et; o0.colcnt_h = cc; o0.part_super_h = ps; o0.panel_size = g_ienv[1]; o0.relax = g_ienv[2];
+          LIB(sp_colorder(&A0, pcfin, &o0, &AC0)); g_track = 1; Destroy_CompCol_Permuted(&AC0); g_track = 0; }
+        do {
+            /* only structurally admissible row orders are forced (documented use: perm_r comes from a factorization of the same pattern) */
+            { unsigned char T[8][8]; memset(T, 0, sizeof T); for (int j = 0; j < n; ++j) for (long p = colptr[j]; p < colptr[j + 1]; ++p) T[perm[rowind[p]]][pcfin[j]] = 1;
+              int adm0 = 1; for (int k = 0; k < n && adm0; ++k) { if (!T[k][k]) { adm0 = 0; break; } for (int i = k + 1; i < n; ++i) if (T[i][k]) for (int j = k + 1; j < n; ++j) T[i][j] |= T[k][j]; }
+              if (!adm0) { fallback++; continue; } }
+            NCformat st = { (int_t)nz, vals, rowind, colptr }; SuperMatrix A = { SLU_NC, vt->dtype, SLU_GE, n, n, &st }, AC, L, U;
+            int_t pc[8], pr[8], pr_in[8]; for (int i = 0; i < n; ++i) { pc[i] = pcfin[i]; pr[i] = pr_in[i] = perm[i]; }
+            superlumt_options_t o; Gstat_t gs; int_t info = -777;
+            sched_configure(P >= 2 ? SCHED_CONTROLLED : SCHED_NONE, P, (uint64_t)(code * 31 + runs + 1), (int)(runs % 3), 2, 50);
+            sched_begin_factor(P);
+            g_track = 1;
+            StatAlloc(n, P, g_ienv[1], g_ienv[2], &gs); StatInit(n, P, &gs);
+            vt->gstrf_init(P, DOFACT, NOTRANS, NO, g_ienv[1], g_ienv[2], 0.0, YES, 0.0, pc, pr, NULL, 0, &A, &AC, &o, &gs);
+            vt->gstrf(&o, &AC, pr, &L, &U, &gs, &info);
+            g_track = 0;
+            sched_end_factor();
+            runs++;
+            if (info == 0) {
+                if (!is_perm(pr, n) || !is_perm(pc, n)) verdict_fail("oracle:perm_not_bijection", "pattern %ld forced order %d%d%d%d: a permutation is not a bijection", code, perm[0], perm[1], n > 2 ? perm[2] : 0, n > 3 ? perm[3] : 0);
+                const char *bad = validate_LU(vt, n, &L, &U, 1, 1); if (bad) verdict_fail("oracle:LU_malformed", "pattern %ld: %s", code, bad);
+                dense_lu *D = extract_LU(vt, n, &L, &U);
+                csc_q F; F.n = n; F.ptr = colptr; F.ind = rowind; zq fv[32]; for (long p = 0; p < nz; ++p) el_get(vt, vals, p, &fv[p].re, &fv[p].im); F.val = fv;
+                char msg[300]; if (check_reconstruction(vt, &F, D, pr, pc, msg, sizeof msg)) verdict_fail("oracle:reconstruction_bound", "pattern %ld forced order: %s", code, msg);
+                /* admissibility of the forced order for the final column order, with fill; and a numerical reference elimination */
+                zq S[8][8]; memset(S, 0, sizeof S);
+                for (int j = 0; j < n; ++j) for (long p = colptr[j]; p < colptr[j + 1]; ++p) S[pr_in[rowind[p]]][pc[j]] = fv[p];
+                int adm = 1, amb = 0;
+                for (int k = 0; k < n && adm; ++k) { ld pk = zq_abs(S[k][k]), mx = 0; for (int i = k; i < n; ++i) { ld a = zq_abs(S[i][k]); if (a > mx) mx = a; }
+                    if (pk == 0) { adm = 0; break; } if (pk < 1e-9L * mx) amb = 1;
+                    for (int i = k + 1; i < n; ++i) { if (S[i][k].re == 0 && S[i][k].im == 0) continue; zq l = zq_div(S[i][k], S[k][k]); for (int j = k + 1; j < n; ++j) S[i][j] = zq_sub(S[i][j], zq_mul(l, S[k][j])); } }
+                int same = 1; for (int i = 0; i < n; ++i) if (pr[i] != pr_in[i]) same = 0;
+                if (adm && amb) ambiguous++;
+                else if (adm) { if (!same) verdict_fail("C02:forced_pivot_order_not_honoured", "pattern %ld (n=%d): usepr=YES, u=0 and every forced pivot is nonzero, but perm_r came back changed", code, n); honoured++; }
+                else ambiguous++;   /* the library re-ordered the columns again: the pre-computed admissibility does not apply */
+                free_dense_lu(D);
+            } else { singular++; if (info < 0 || info > n) verdict_fail("oracle:info_out_of_range", "pattern %ld: info=%d", code, (int)info); }
+            g_track = 1; vt->finalize(&o, &AC); Destroy_SuperNode_SCP(&L); Destroy_CompCol_NCP(&U); StatFree(&gs); g_track = 0;
+        } while (next_perm(perm, n));
+    }
+    feat("enum_runs", runs); feat("enum_patterns", patterns); feat("enum_honoured", honoured); feat("enum_fallback", fallback); feat("enum_ambiguous", ambiguous); feat("enum_singular", singular);
     verdict_pass();
 }
